@@ -7,6 +7,8 @@ from .core import I
 
 BCFG = """CONSTANTS
   Pairs = {pairs}
+  Mode = "{mode}"
+  MaxDeviations = {maxdev}
 INIT Init
 NEXT Next
 INVARIANTS EmitCase
@@ -124,6 +126,53 @@ def realise(template, row, idx):
     return job
 
 
+KEY_ADDR = [0x60] + [0x51] * 28
+STAKE_ADDR = [0xE0] + [0x54] * 28
+GOOD = {
+    ("withdrawal", "credential"): {"k": "address", "v": STAKE_ADDR},
+    ("withdrawal", "amount"): {"k": "number", "num": I(5)},
+    ("withdrawal", "redeemer"): {"k": "struct", "ctor": 0, "fields": []},
+    ("plutus_witness", "version"): {"k": "number", "num": I(3)},
+    ("plutus_witness", "script"): {"k": "bytes", "v": [0x51, 0x01, 0x01, 0x00]},
+    ("native_witness", "script"): {"k": "bytes", "v": [0x82, 0x00, 0x58, 0x1C] + [0x51] * 28},
+    ("cardano_publish", "to"): {"k": "address", "v": KEY_ADDR},
+    ("cardano_publish", "amount"): {"k": "assets", "items": [{"policy": {"k": "none"}, "name": {"k": "none"}, "amount": {"k": "number", "num": I(2000000)}}]},
+    ("cardano_publish", "datum"): {"k": "struct", "ctor": 0, "fields": [{"k": "number", "num": I(1)}]},
+    ("cardano_publish", "version"): {"k": "number", "num": I(3)},
+    ("cardano_publish", "script"): {"k": "bytes", "v": [0x51, 0x01, 0x01, 0x00]},
+    ("treasury_donation", "coin"): {"k": "number", "num": I(7)},
+    ("vote_delegation_certificate", "drep"): {"k": "bytes", "v": [0x33] * 28},
+    ("vote_delegation_certificate", "stake"): {"k": "address", "v": STAKE_ADDR},
+}
+SHAPES = {
+    "none": {"k": "none"}, "number": {"k": "number", "num": I(2**64)}, "negative": {"k": "number", "num": I(-1)},
+    "bytes3": {"k": "bytes", "v": [1, 2, 3]}, "bytes28": {"k": "bytes", "v": [9] * 28}, "list": {"k": "list", "items": []},
+    "bool": {"k": "bool", "flag": True}, "address": {"k": "address", "v": KEY_ADDR}, "param": {"k": "p_value", "name": "p1", "ty": "Int"},
+}
+
+
+def directive_tx(c):
+    """an otherwise plain constant transaction carrying the directive instance c (Backend!DirectiveInstances)"""
+    data = []
+    for f, shape in sorted(c["shapes"].items()):
+        if shape == "missing":
+            continue
+        data.append({"key": f, "val": copy.deepcopy(GOOD[(c["name"], f)] if shape == "good" else SHAPES[shape])})
+    if c["extra"]:
+        data.append({"key": "unknown_field", "val": {"k": "number", "num": I(1)}})
+    utxo = {"ref": {"txid": [1] * 32, "index": 0}, "address": KEY_ADDR, "assets": [{"c": {"k": "naked"}, "n": I(50_000_000)}],
+            "datum": {"k": "none"}}
+    lovelace = lambda e: {"k": "assets", "items": [{"policy": {"k": "none"}, "name": {"k": "none"}, "amount": e}]}  # noqa
+    return {"fees": {"k": "p_fees"}, "references": [],
+            "inputs": [{"name": "src", "utxos": {"k": "p_input", "name": "src", "q": {
+                "address": {"k": "address", "v": KEY_ADDR}, "min_amount": lovelace({"k": "number", "num": I(3000000)}),
+                "ref": {"k": "none"}, "many": False, "collateral": False}}, "redeemer": {"k": "none"}}],
+            "outputs": [{"address": {"k": "address", "v": KEY_ADDR}, "datum": {"k": "none"},
+                         "amount": lovelace({"k": "number", "num": I(2000000)}), "optional": False}],
+            "validity": {"k": "none"}, "mints": [], "burns": [], "adhoc": [{"name": c["name"], "data": data}],
+            "collateral": [], "signers": {"k": "none"}, "metadata": []}
+
+
 def templates(rep, tier, seed):
     quick = tier == "quick"
     rng = random.Random(seed)
@@ -138,6 +187,33 @@ def templates(rep, tier, seed):
                     "params": [("n", "Int"), ("mixed", "Int"), ("b", "Bytes"), ("e_int", "Int"), ("sender", "Address"),
                                ("receiver", "Address"), ("myparty", "Address")],
                     "queries": ["source", "collateral"], "origin": "lang:" + c["slot"]})
+    # multi-feature programs: the block-presence lattice of C10 (mint / burn that cancel, redeemers, collateral,
+    # references, metadata, signers ...) and the redeemer-order programs of C08 (several script inputs, mints, withdrawals)
+    led = langcheck.gen_ledger(rep, "c10", "c14_c10", features=langcheck.FEATURES if not quick else
+                               ["metadata", "input_redeemer", "mint", "mint_redeemer", "burn_same", "burn_other_asset", "burn_all",
+                                "optional_empty", "signers", "collateral", "datum", "validity"], workers=6)
+    led8 = langcheck.gen_ledger(rep, "c08", "c14_c08", ninputs=2, workers=6)
+    rng.shuffle(led)
+    rng.shuffle(led8)
+    for c in led[:80 if quick else 1500] + led8[:40 if quick else 1500]:
+        prog = core.untlcify(c["prog"])
+        out.append({"kind": "source", "source": pp.sources(prog, "t", seed)[0],
+                    "params": [("n", "Int"), ("mixed", "Int"), ("b", "Bytes"), ("e_int", "Int"), ("sender", "Address"),
+                               ("receiver", "Address"), ("myparty", "Address"), ("stakeone", "Address"), ("staketwo", "Address")],
+                    "queries": sorted({i["name"] for i in prog["tx"]["inputs"]} | {"collateral"}), "origin": "ledger:" + c["slot"]})
+    # chain-specific directives (Backend!DirectiveInstances): every field of the schema good / missing / of another shape
+    dr = core.tlc_mc("MC_Backend", BCFG.format(pairs="FALSE", mode="directives", maxdev=1 if quick else 2), "c14_directives",
+                     workers=4, timeout=900)
+    rep.add_tlc(dr)
+    dcs = list(dr.cases)
+    if not quick and len(dcs) > 6000:
+        rng.shuffle(dcs)
+        dcs = dcs[:6000]
+    for c in dcs:
+        out.append({"kind": "tir", "tx": directive_tx(c), "params": [("p1", "Int")], "queries": ["src"],
+                    "origin": "directive:" + c["name"] + ":" + ",".join(f"{k}={v}" for k, v in sorted(c["shapes"].items()) if v != "good")
+                              + ("+extra" if c["extra"] else "")})
+    rep.extra["directive_instances"] = len(dcs)
     from .staging import CFG_CLOSURE
     clo = core.tlc_mc("MC_Closure", CFG_CLOSURE.format(depth=0 if quick else 1), "c14_closure", workers=6, timeout=1500)
     rep.add_tlc(clo)
@@ -167,7 +243,7 @@ def sig_of(b):
 
 def check(tier, seed):
     rep = core.Report("C14", tier, seed)
-    rep.rule = ("a case is a template (core programs of MC_Lang, one-hole IR templates of MC_Closure, seeded random IR trees) resolved in one "
+    rep.rule = ("a case is a template (core programs of MC_Lang, multi-feature programs of MC_Ledger (C10 lattice, C08 orders), one-hole IR templates of MC_Closure, seeded random IR trees) resolved in one "
                 "row of the boundary matrix enumerated by TLC (MC_Backend): integer argument class (0, -1, +-2^63, +-2^64, i128 extremes), "
                 "byte-string length (0..64 where 28 / 32 are expected), address kind (key, script, base, stake, Byron-like, 1 byte, empty, "
                 "raw 28 bytes, bad header), UTxO contents (zero / huge / i128 / negative assets, wrong or deep datum), store (empty, "
@@ -179,7 +255,7 @@ def check(tier, seed):
     core.build_driver()
     quick = tier == "quick"
     rng = random.Random(seed)
-    r = core.tlc_mc("MC_Backend", BCFG.format(pairs="TRUE"), "c14_rows", workers=4, timeout=600)
+    r = core.tlc_mc("MC_Backend", BCFG.format(pairs="TRUE", mode="rows", maxdev=1), "c14_rows", workers=4, timeout=600)
     rep.add_tlc(r)
     rows = r.cases
     single = [x for x in rows if sum(1 for k in x if k != "_" and x[k] != DEFAULT[k]) <= 1]
